@@ -365,6 +365,7 @@ pub fn resolve_inputs(spec: &str, seed: u64) -> Vec<Input> {
             "manyimp" => out.extend(many_import_inputs()),
             "offsets" => out.extend(offset_inputs()),
             "nocode" => out.extend(nocode_inputs()),
+            "badnames" => out.extend(bad_name_inputs()),
             "noncanon" => out.extend(noncanonical_inputs()),
             "trailing" => out.extend(trailing_operator_inputs()),
             "bodysizes" => out.extend(body_size_inputs(false)),
@@ -1396,6 +1397,56 @@ pub fn trailing_operator_inputs() -> Vec<Input> {
         .collect()
 }
 
+/// modules whose name section cannot be fully applied (a locals subsection for a function that does not exist -- a
+/// known quirk of some producers -- and a truncated section): walrus warns and carries on
+pub fn bad_name_inputs() -> Vec<Input> {
+    use wasm_encoder as we;
+    let base = |tail: &dyn Fn(&mut we::Module)| -> Vec<u8> {
+        let mut m = we::Module::new();
+        let mut t = we::TypeSection::new();
+        t.function([we::ValType::I32], []);
+        m.section(&t);
+        let mut f = we::FunctionSection::new();
+        f.function(0);
+        m.section(&f);
+        let mut e = we::ExportSection::new();
+        e.export("f", we::ExportKind::Func, 0);
+        m.section(&e);
+        let mut c = we::CodeSection::new();
+        let mut body = we::Function::new([(1, we::ValType::I32)]);
+        body.instruction(&we::Instruction::LocalGet(0));
+        body.instruction(&we::Instruction::LocalSet(1));
+        body.instruction(&we::Instruction::End);
+        c.function(&body);
+        m.section(&c);
+        tail(&mut m);
+        m.finish()
+    };
+    let dangling = base(&|m| {
+        let mut n = we::NameSection::new();
+        let mut fnames = we::NameMap::new();
+        fnames.append(0, "named");
+        n.functions(&fnames);
+        let mut locals = we::IndirectNameMap::new();
+        let mut l0 = we::NameMap::new();
+        l0.append(0, "x");
+        locals.append(0, &l0);
+        let mut l99 = we::NameMap::new();
+        l99.append(0, "ghost");
+        locals.append(99, &l99);
+        n.locals(&locals);
+        m.section(&n);
+    });
+    let truncated = base(&|m| {
+        // a function-names subsection that announces two entries and holds one
+        m.section(&we::CustomSection { name: "name".into(), data: (&[1u8, 6, 2, 0, 3, b'a', b'b', b'c'][..]).into() });
+    });
+    vec![
+        Input { id: "badnames-dangling-locals".into(), bytes: dangling, source: "badnames:dangling-locals".into() },
+        Input { id: "badnames-truncated".into(), bytes: truncated, source: "badnames:truncated".into() },
+    ]
+}
+
 /// one module per post-MVP proposal that needs exactly (or at least) that proposal, plus MVP modules
 pub fn proposal_inputs(seed: u64, per: u64) -> Vec<Input> {
     let mut out = vec![];
@@ -1601,13 +1652,24 @@ pub fn parallel_inputs(seed: u64, n: u64) -> Vec<Input> {
     for k in 0..n {
         let s = seed.wrapping_mul(7_000_003).wrapping_add(k);
         let mut o = profile_opts("many");
-        // a spread of function counts: 1, 2, ..., a few hundred
-        o.max_funcs = [1usize, 2, 3, 5, 17, 64, 127, 128, 129, 300][(k % 10) as usize];
+        // a spread of function counts: 1, 2, ..., a few hundred, and past the sizes at which a thread pool starts to
+        // split the work unevenly
+        o.max_funcs = [1usize, 2, 3, 5, 17, 64, 127, 128, 129, 300, 513, 1026][(k % 12) as usize];
         let mut r = gen::rng(s);
         if k % 4 == 0 {
             o.fuel = 0; // equal (minimal) sizes
         }
-        let (g, _) = gen::gen_valid(s, &o);
+        let (mut g, _) = gen::gen_valid(s, &o);
+        if o.max_funcs > 500 {
+            // really that many: try a few seeds until the module has more than 512 local functions
+            for extra in 1..40u64 {
+                let n = absmod::project(&g.bytes).map(|m| m.funcs.iter().filter(|f| !f.imported).count()).unwrap_or(0);
+                if n > 512 && n % 2 == 1 || n > 600 {
+                    break;
+                }
+                g = gen::gen_valid(s.wrapping_add(extra * 1_000_003), &o).0;
+            }
+        }
         let mut bytes = g.bytes;
         let mut tag = "valid";
         if k % 3 == 2 {
